@@ -175,7 +175,7 @@ class Engine:
         return b
 
     # ------------------------------------------------------------------ exploration
-    def explore(self, run_one, on_end=None, label='', pending=None, stop_when_pending=None, bfs=False):
+    def explore(self, run_one, on_end=None, label='', pending=None, stop_when_pending=None, bfs=False, deadline=None):
         """run `run_one()` once per feasible path.  on_end(outcome, value_or_exc, path) is called per path.
         outcome in {'ok','panic','exit','unsupported','bound'}.  With stop_when_pending=k the loop returns as soon as k
         unexplored decision prefixes are queued (they stay in self.pending) so that they can be handed to worker processes."""
@@ -184,6 +184,8 @@ class Engine:
         while self.pending:
             if stop_when_pending is not None and len(self.pending) >= stop_when_pending:
                 break
+            if deadline is not None and time.time() > deadline:
+                break           # time slice used up: what is left in self.pending goes back to the coordinator
             prefix = self.pending.pop(0) if bfs else self.pending.pop()
             self.path = Path(prefix)
             n += 1
